@@ -1288,7 +1288,11 @@ impl<'t> Captures<'t> {
                 end: span.end,
             }),
             CapturesImpl::Fancy { text, ref saves } => {
-                let slot = i * 2;
+                // an index whose slot number does not fit a usize is beyond every group
+                let slot = match i.checked_mul(2) {
+                    Some(slot) => slot,
+                    None => return None,
+                };
                 if slot >= saves.len() {
                     return None;
                 }
